@@ -99,6 +99,39 @@ def pair(ctx, rep, rule):
     rep.floor(rule, 10, "(call sites of BerDecoder::decode)")
 
 
+def bounded_children(ctx, rep, rule):
+    """The contents of a constructed element are parsed from a slice cut to its declared length.  The three from_ber
+    wrappers cut `tail[..hdr.length]` before anything reads it; any other function that calls BerHeader::from_ber itself
+    must not hand the uncut remainder (the first component of its result) to a nested parser - inner lengths that overrun
+    the element would then be honoured and values taken from octets outside it."""
+    facts = ctx.facts
+    wrappers = {"ber::BerDecoder::from_ber", "<ber::option::SnmpOption<'a> as ber::BerDecoder<'a>>::from_ber", "snmp::value::SnmpValue::<'_>::from_ber"}
+    n = 0
+
+    def uncut_tail(t):
+        # (BerHeader::from_ber(..)? as Continue).0.0 - the input that follows the header, not yet cut to hdr.length
+        if not (t[0] == "f" and t[2] == "0" and t[1][0] == "f" and t[1][2] == "0"):
+            return False
+        return flow.mentions(t[1][1], lambda s_: s_[0] == "call" and (s_[1] or "") == "ber::header::BerHeader::from_ber") and \
+            not flow.mentions(t[1][1], lambda s_: s_[0] == "call" and (s_[1] or "").split("::")[-1] in ("index", "get", "split_at", "take"))
+    for body in facts.body_list:
+        if body.path in wrappers or not any((callee_path(b.term) or "") == "ber::header::BerHeader::from_ber" for b in body.calls()):
+            continue
+        prov = flow.Prov(body)
+        for blk in body.calls():
+            p = callee_path(blk.term) or ""
+            last = p.split("::")[-1]
+            if last not in ("from_ber", "decode", "try_from") or p == "ber::header::BerHeader::from_ber":
+                continue
+            for a in blk.term["args"][:1]:
+                t = prov.operand(a)
+                n += 1
+                rep.check(rule, "%s|%s reads a cut slice" % (body.path, p.split(" as ")[0].lstrip("<")[-40:]), not uncut_tail(t), "contents cut to the declared length",
+                          "a nested element is parsed from the uncut remainder after a header (%s): its length is not bounded by the enclosing element" %
+                          flow.fmt(t)[:80], body.loc(blk.term["line"]), obligation=True)
+    rep.info(rule, "direct header parses outside the from_ber wrappers: nested parses checked", str(n))
+
+
 def rest(ctx, rep, rule):
     """from_ber returns &tail[hdr.length..] with (tail, hdr) from one header parse."""
     facts = ctx.facts
@@ -399,6 +432,38 @@ def tail_cover(ctx, rep, rule):
                           b.loc(cov[0]["line"]), obligation=True)
     if n < 3:
         rep.violation(rule, "floor-numeric-decoders", "%d numeric decode impls found, floor is 3" % n)
+
+
+# decoders that hand back the contents octets as they are (zero copy): every content of the declared length is a value
+_ZERO_COPY_DECODERS = ("ber::objectid::SnmpOid", "ber::relative_oid::SnmpRelativeOid", "ber::octetstring::SnmpOctetString", "ber::opaque::SnmpOpaque",
+                       "ber::objectdescriptor::SnmpObjectDescriptor", "ber::sequence::SnmpSequence", "ber::option::SnmpOption")
+
+
+def zero_copy_total(ctx, rep, rule):
+    """The zero-copy decoders (OBJECT IDENTIFIER, RELATIVE-OID, OCTET STRING, Opaque, ObjectDescriptor, SEQUENCE, [n]) are
+    total: they borrow `i[..h.length]` and have no error exit.  A check added there decides which names and values an
+    agent may return - one that is off by one octet, one bit or one length refuses well-formed responses (an arc of
+    2^28, the sub-identifier 16384 = 81 80 00, the two-arc OID 1.3) and ends a walk with SnmpDecodeError."""
+    facts = ctx.facts
+    n = 0
+    for b in facts.body_list:
+        if not (b.impl_trait == "ber::BerDecoder" and b.name == "decode" and any(("<%s<" % d) in b.path or ("<%s as " % d) in b.path for d in _ZERO_COPY_DECODERS)):
+            continue
+        n += 1
+        errs = flow.blocks_assigning_return(b, lambda rv: rv["k"] == "agg" and rv.get("vname") == "Err")
+        why = ""
+        if errs:
+            prov = flow.Prov(b)
+            gs = flow.deciding_guards(b, prov, errs)
+            why = "; ".join(flow.fmt(g.term)[:60] for g, pol, tgt in gs[:3])
+        line = None
+        if errs and b.blocks[errs[0]].stmts:
+            line = b.blocks[errs[0]].stmts[0].get("line")
+        rep.check(rule, b.path + "|total", not errs, "no error exit",
+                  "the decoder refuses some contents of the declared length (error exit decided by %s): responses carrying such a name or value "
+                  "are dropped with SnmpDecodeError" % (why or "?"), b.loc(line), obligation=True)
+    if n < 5:
+        rep.violation(rule, "floor-zero-copy-decoders", "%d zero-copy decode impls found, floor is 5" % n)
 
 
 def hdr_contract(ctx, rep, rule):
